@@ -10,10 +10,10 @@ pub fn prop() -> Prop {
     Prop {
         id: "C02",
         level: "model_checking",
-        rule: "values: every string of length <=2 (thorough <=3, 4 over a 16-character core and 5 over an 8-character core) over a 49-character alphabet (all C0 controls, DEL, quote, backslash, slash, U+0080, U+00FF, U+2028/9, U+D7FF, U+E000, U+FFFD, U+FFFF, U+10000, U+1F603, U+10FFFF, 'a') as a value, as a member name and inside an array; 26 boundary numbers; 29 computed numbers (results of arithmetic incl. overflow, negative zero, integral floats, exponent spellings); ~90 containers of depth <=3 with 0/1/2 members and 18 array/object chains of depth 8..64; strings of 15..4097 characters with a special character first or last (as value, member name, element) and arrays/objects of 15..1025 members; x 3 styles x utf8 on/off x 4 row separators; each case = 2 runs (output fed back); non-trivial = a character outside ' '..'~', a number that is not a small integer, or a non-empty container; distinct by construction; 4 inputs x 10 selection sets (rows built by jawk from selections, incl. selections that share a name, where every printed object must still have distinct member names)",
+        rule: "values: every string of length <=2 (thorough <=3, 4 over a 16-character core and 5 over an 8-character core) over a 49-character alphabet (all C0 controls, DEL, quote, backslash, slash, U+0080, U+00FF, U+2028/9, U+D7FF, U+E000, U+FFFD, U+FFFF, U+10000, U+1F603, U+10FFFF, 'a') as a value, as a member name and inside an array; 26 boundary numbers; 29 computed numbers (results of arithmetic incl. overflow, negative zero, integral floats, exponent spellings); ~90 containers of depth <=3 with 0/1/2 members and 18 array/object chains of depth 8..64; strings of 15..4097 characters with a special character first or last (as value, member name, element) and arrays/objects of 15..1025 members; a position grid (13 atoms of all types incl. exponent forms and a 20-digit integer at every position - only/first/last/middle element or member - of every nesting shape of depth <=3 (thorough 4), members named by each of 10 names: empty, literal-like, number-like, with blank, quote, line feed, non-ASCII) as the stream `value atom value`; x 3 styles x utf8 on/off x 4 row separators; each case = 2 runs (output fed back); non-trivial = a character outside ' '..'~', a number that is not a small integer, or a non-empty container; distinct by construction; 4 inputs x 10 selection sets (rows built by jawk from selections, incl. selections that share a name, where every printed object must still have distinct member names)",
         explanation: "stdout is framed by the row separator and each row is read by the independent strict RFC 8259 reader and compared with the reference value; style relations (consise has no insignificant whitespace, one-line no line break, pretty = one element/member per line with indentation c*depth, all three equal after deleting insignificant whitespace) and the byte-for-byte fixpoint of a second run are checked on every case",
         assumptions: COMMON_ASSUMPTIONS.to_vec(),
-        guards: vec!["separator-of-minus-signs-touching-the-next-row", "selections-sharing-a-name", "size-thresholds", "control-character", "astral-character", "pretty-nested", "computed-non-finite", "separator-without-newline", "utf8-on"],
+        guards: vec!["position-grid", "separator-of-minus-signs-touching-the-next-row", "selections-sharing-a-name", "size-thresholds", "control-character", "astral-character", "pretty-nested", "computed-non-finite", "separator-without-newline", "utf8-on"],
         budget_s: (100, 2400),
         single_worker: false,
         run,
@@ -529,6 +529,38 @@ fn run(ctx: &mut Ctx) {
         check_item(ctx, &it);
     }
     ctx.level_done("containers-depth<=3-and-chains-to-depth-64");
+    // ---- the position grid: an atom of every kind at every position of every nesting shape (see refmodel::spell), as the
+    // stream `value atom value`, so that a value also follows a row of a very different type and comes back after it
+    let gdepth = ctx.tier.pick(3, 4);
+    let atoms = spell::grid_atoms();
+    let names = spell::grid_names();
+    let mut shapes: Vec<Vec<usize>> = Vec::new();
+    for d in 1..=gdepth {
+        crate::explore::seqs_exact(spell::GRID_WRAPPERS, d, |s| shapes.push(s.to_vec()));
+    }
+    for (si, shape) in shapes.iter().enumerate() {
+        if !ctx.mine() {
+            continue;
+        }
+        ctx.guard("position-grid");
+        for (ai, atom) in atoms.iter().enumerate() {
+            let all_names = shape.len() <= gdepth - 1;
+            for (ni, name) in names.iter().enumerate() {
+                if !all_names && ni != (si + ai) % names.len() {
+                    continue;
+                }
+                let v = spell::grid_value(shape, name, atom);
+                let (t, a) = (to_text(&v), to_text(atom));
+                let it = Item { input: format!("{t} {a} {t}"), args: vec![], expected: Some(vec![v.clone(), atom.clone(), v.clone()]), kind: "position-grid", nontrivial: true };
+                check_item(ctx, &it);
+            }
+        }
+        if ctx.time_up() {
+            ctx.cap("position grid");
+            return;
+        }
+    }
+    ctx.level_done(&format!("position-grid(depth<={gdepth},8-wrappers,{}-atoms,{}-names)", atoms.len(), names.len()));
     // ---- size thresholds: long strings (special character last / first), wide arrays and objects
     for n in [15usize, 16, 17, 31, 32, 33, 63, 64, 65, 127, 128, 129, 255, 256, 257, 1023, 1024, 1025, 4095, 4096, 4097] {
         if !ctx.mine() {
